@@ -206,6 +206,31 @@ def gen_best(rng, tier):
         yield {"keys": keys, "cands": cands}
 
 
+def gen_bestcfg(rng, tier):
+    names = ["f0", "f1", "f2", "f3"]
+    n = 0
+    for _ in range(n_cases(tier, 120, 1200)):
+        cands = []
+        for j in range(rng.randint(1, 3)):
+            ln = sorted(rng.sample(names, rng.randint(1, 4)))
+            c = {"id": f"K{j}", "local_names": ln}
+            for which in ("strict", "lenient"):
+                if rng.random() < 0.25:
+                    c["attempt_" + which], c["_mix_" + which] = None, None
+                else:
+                    n_str = rng.randint(0, len(ln))
+                    n_other = rng.randint(0, len(ln) - n_str)
+                    c["attempt_" + which], c["_mix_" + which] = 2 * n_str + 3 * n_other, [n_str, n_other]
+            cands.append(c)
+        keys = sorted(rng.sample(names, rng.randint(0, 2)))
+        n += 1
+        yield {"keys": keys, "cands": cands, "config": L.CFG8[n % 8]}
+
+
+def impl_bestcfg(a):
+    return L.real_bestcfg(a["keys"], a["cands"], a["config"])
+
+
 def impl_best(a):
     return L.real_best(a["keys"], a["cands"])
 
@@ -216,6 +241,9 @@ CORRS = [
          describe="NodeParser(EventsHandler) vs parseRoot on documents with injected unknown elements / attributes / non-convertible values, 8 configs"),
     Corr("dict.bindkeys", gen_bindkeys, impl_bindkeys, classify=classify_bindkeys,
          describe="the key loop of DictDecoder.bind_dataclass (real find_var, derived-keys shortcut, unknown keys) vs bindDataclass"),
+    Corr("dict.bestcfg", gen_bestcfg, impl_bestcfg,
+         describe="bind_best_dataclass followed by a failing conversion on the same decoder: candidates see the strict copy, the caller's "
+                  "configuration is untouched (workAll)"),
     Corr("dict.best", gen_best, impl_best,
          describe="candidate selection of DictDecoder.bind_best_dataclass (real local_names_match / score_object) vs bindBest"),
 ]
@@ -246,7 +274,7 @@ def _cached(key, fn):
     return _CACHE[key]
 
 
-def check_injection(a):
+def check_injection(a, routes=L.ROUTES):
     """a = a bind.parse case produced by gen_inject (needs _inj/_orig)"""
     inj = a.get("_inj")
     if not inj:
@@ -262,7 +290,7 @@ def check_injection(a):
     kind = inj["kind"]
     if kind in ("attr", "xsi-attr") and any(k == "{%s}nil" % L.XSI for k, _ in G.tree_at(orig, inj["path"])["a"]):
         return None  # a nil element is built without looking at its attributes at all
-    for route in L.ROUTES:
+    for route in routes:
         r0 = _cached(("r0", route, L.cfg_key(cfg)) + okey, lambda: L.parse_route(u, clazz, orig, cfg, route))
         if "ok" not in r0:
             continue  # the document itself is not accepted on this route: nothing to compare with
@@ -435,9 +463,203 @@ def covered_dict(a, msg):
 
 
 ORACLES = [
+    Oracle("dict-documents-and-sequences", lambda rng, tier: gen_dict_seq(rng, tier), lambda a: check_dict_seq(a), from_ops=("c10.dict_seq",)),
     Oracle("unknown-content-in-documents", gen_oracle_inject, check_injection, covered=covered_injection,
-           from_ops=("bind.parse",), adapt=lambda op, a: a if "_inj" in a else None),
+           from_ops=("bind.parse", "c10.xml_e2e"), adapt=lambda op, a: a if "_inj" in a else None),
     Oracle("unknown-keys-in-dictionaries", gen_dict_cases, check_dict, covered=covered_dict),
+]
+
+
+# =========================================================================
+# spec-level ops: whole decodes / parses against the property statement itself
+# =========================================================================
+DICT_FEATS = {"attr", "elem", "child", "list", "nillable", "tokens", "sequence", "inherit", "ns", "fixed", "text", "compound", "anytype"}
+BAD = {"int": ["many", " 12x "], "bool": ["maybe", "truee"]}
+
+
+def dict_documents(rng, tier):
+    """(universe, desc, [ (data, positions) x2 ]) : hand-made polymorphic universes and random ones"""
+    for i in range(n_cases(tier, 20, 160)):
+        try:
+            if i % 4 != 3:
+                desc = L.poly_desc(rng)
+                u = uni_of({"desc": desc})
+                objs = [L.poly_instance(rng, u) for _ in range(2)]
+            else:
+                u, desc, _ = new_universe(rng, DICT_FEATS)
+                objs = [G.gen_instance(rng, u, "Root") for _ in range(2)]
+            docs = []
+            for o in objs:
+                marked = L.encode_marked(u, o)
+                docs.append((L.strip_marks(marked), L.dict_positions(u, marked)))
+        except Exception:  # noqa: BLE001
+            continue
+        yield u, desc, docs
+
+
+def dict_injections(rng, positions):
+    out = []
+    for p in positions:
+        for pos in sorted({0, p["size"]}):
+            out.append({"kind": "key", "path": p["path"], "key": L.UNKNOWN_KEY, "value": rng.choice(L.UNKNOWN_VALUES), "pos": pos,
+                        "inside_best": p["inside_best"], "cls": p["cls"]})
+        for k, t in p["scalars"]:
+            for bad in BAD[t]:
+                out.append({"kind": "value", "path": p["path"], "key": k, "bad": bad, "inside_best": p["inside_best"], "cls": p["cls"]})
+    return out
+
+
+def gen_dict_seq(rng, tier):
+    cap = n_cases(tier, 160, 400)
+    n = 0
+    for u, desc, docs in dict_documents(rng, tier):
+        (dA, pA), (dB, pB) = docs
+        injA, injB = dict_injections(rng, pA), dict_injections(rng, pB)
+        base = {"desc": desc, "_uni": u.modname, "clazz": "Root"}
+        singles = [(inj, cfg) for inj in injA for cfg in L.CFG8]
+        if len(singles) > cap:
+            groups = {}
+            for inj, cfg in singles:
+                groups.setdefault((inj["kind"], inj["inside_best"], L.cfg_key(cfg)), []).append((inj, cfg))
+            singles = []
+            while len(singles) < cap and groups:
+                for k in list(groups):
+                    singles.append(groups[k].pop(rng.randrange(len(groups[k]))))
+                    if not groups[k]:
+                        del groups[k]
+        for inj, cfg in singles:
+            n += 1
+            yield {**base, "config": cfg, "via": ("dict", "json")[n % 2], "share": "decoder", "docs": [{"orig": dA, "inj": inj}]}
+        # the same decoder / the same ParserConfig instance over several documents
+        for cfg in L.CFG8:
+            for share in ("decoder", "config"):
+                n += 1
+                via = ("dict", "json")[n % 2]
+                if injB:
+                    yield {**base, "config": cfg, "via": via, "share": share, "docs": [{"orig": dA, "inj": None}, {"orig": dB, "inj": rng.choice(injB)}]}
+                if injA and injB:
+                    yield {**base, "config": cfg, "via": via, "share": share,
+                           "docs": [{"orig": dA, "inj": rng.choice(injA)}, {"orig": dA, "inj": None}, {"orig": dB, "inj": rng.choice(injB)}]}
+
+
+def impl_dict_seq(a):
+    u = uni_of(a)
+    docs = [L.apply_dict_injection(d["orig"], d["inj"]) for d in a["docs"]]
+    return {"ok": L.run_dict_sequence(u, a["clazz"], docs, a["config"], a["via"], a["share"])}
+
+
+def spec_dict_seq(a):
+    """the statement: every document decodes as it would on its own with a fresh decoder —
+    unknown key ignored / ParserError, unconvertible value kept as given with exactly one more
+    ConverterWarning / ParserError — and the caller's ParserConfig is what it was"""
+    u = uni_of(a)
+    cfg = a["config"]
+    want = []
+    for d in a["docs"]:
+        base = L.run_dict_sequence(u, a["clazz"], [d["orig"]], cfg, a["via"], "decoder")["docs"][0]
+        inj = d["inj"]
+        if "ok" not in base:
+            want.append({"any": "the document without the injection is not decodable"})
+        elif inj is None:
+            want.append(base)
+        elif inj["kind"] == "key":
+            if cfg["fail_on_unknown_properties"]:
+                want.append({"err": "ParserError"})
+            elif inj["inside_best"]:
+                want.append({"any": "C10-dict-best-rejects-unknown"})
+            else:
+                want.append(base)
+        else:
+            if cfg["fail_on_converter_warnings"]:
+                want.append({"err": "ParserError"})
+            elif inj["inside_best"]:
+                want.append({"any": "C10-dict-best-strict-conversion"})
+            else:
+                val = L.replace_in_val(u, base["ok"]["value"], inj["path"], inj["key"], {"str": inj["bad"]})
+                if val is None:
+                    want.append({"any": "position not addressable in the decoded value"})
+                else:
+                    want.append({"ok": {"value": val, "warnings": base["ok"]["warnings"] + 1}})
+    return {"ok": {"docs": want, "config_after": {k: cfg[k] for k in L.FLAGS}}}
+
+
+def diff_dict_seq(mo, io, a):
+    """None when the observed run meets the expectation, else a description"""
+    if "ok" not in io:
+        return f"harness error {io}"
+    if "ok" not in mo:
+        return None
+    got, want = io["ok"], mo["ok"]
+    for i, (g, w) in enumerate(zip(got["docs"], want["docs"])):
+        if "any" in w:
+            continue
+        inj = a["docs"][i]["inj"]
+        what = "no injection" if inj is None else (f"unknown key at {inj['path']}" if inj["kind"] == "key" else f"{inj['key']}={inj['bad']!r} at {inj['path']} ({inj['cls']})")
+        if "err" in w:
+            if g.get("err") != w["err"]:
+                return f"document #{i} ({what}): expected {w['err']}, observed {_short(g)}"
+        elif g != w:
+            return f"document #{i} ({what}): expected {_short(w)}, observed {_short(g)}"
+    if got["config_after"] != want["config_after"]:
+        return f"the caller's ParserConfig changed: {want['config_after']} -> {got['config_after']}"
+    return None
+
+
+def check_dict_seq(a):
+    msg = diff_dict_seq(spec_dict_seq(a), impl_dict_seq(a), a)
+    if msg:
+        return f"[{a['via']}, share={a['share']}, cfg={L.cfg_key(a['config'])}] {msg}"
+    return None
+
+
+def classify_dict_seq(a, o):
+    kinds = "+".join("none" if d["inj"] is None else d["inj"]["kind"] + ("@best" if d["inj"]["inside_best"] else "") for d in a["docs"])
+    res = "+".join("ok" if "ok" in r else r.get("err", "?") for r in o["ok"]["docs"]) if "ok" in o else "harness"
+    return f"{kinds}:{L.cfg_key(a['config'])}:{res}"
+
+
+XML_ROUTES = ("native", "lxml")
+
+
+def gen_xml_e2e(rng, tier):
+    n_uni = n_cases(tier, 3, 10)
+    per_doc = n_cases(tier, 40, 80)
+    for feats in FEATURE_SETS:
+        for _ in range(n_uni):
+            u, desc, ctx = new_universe(rng, feats)
+            for _ in range(2):
+                try:
+                    obj = G.gen_instance(rng, u, "Root")
+                    tree = G.xml_tree(G.real_serialize(u, obj, writer=rng.choice(["native", "lxml"])).encode())
+                except Exception:  # noqa: BLE001
+                    continue
+                combos = [(inj, cfg) for inj in injection_points(tree) for cfg in L.CFG8]
+                if len(combos) > per_doc:
+                    combos = stratified(rng, combos, L.label_elements(u, "Root", tree), per_doc)
+                for inj, cfg in combos:
+                    yield {"tree": apply_injection(tree, inj), "clazz": "Root", "config": cfg, "desc": desc, "_uni": u.modname,
+                           "_kind": inj["kind"], "_inj": inj, "_orig": tree}
+
+
+def impl_xml_e2e(a):
+    msg = check_injection(a, XML_ROUTES)
+    return {"ok": "as stated"} if msg is None else {"err": msg}
+
+
+def cmp_xml_e2e(mo, io, a):
+    return "ok" in io or covered_injection(a, io["err"]) is not None
+
+
+CORRS += [
+    Corr("c10.dict_seq", gen_dict_seq, impl_dict_seq, spec=spec_dict_seq, compare=lambda mo, io, a: diff_dict_seq(mo, io, a) is None,
+         classify=classify_dict_seq, nontrivial=lambda a, o: any(d["inj"] for d in a["docs"]),
+         describe="spec-level: real DictDecoder / JsonParser over documents of universes with best-match fields (base class with subclasses, "
+                  "compound, dataclass union, anyType), unknown keys and unconvertible values at every position, single documents and "
+                  "sequences sharing one decoder / one ParserConfig instance, 8 configs; expected per the statement, config unchanged"),
+    Corr("c10.xml_e2e", gen_xml_e2e, impl_xml_e2e, spec=lambda a: {"ok": "as stated"}, compare=cmp_xml_e2e,
+         classify=lambda a, o: f"{a['_kind']}:{L.cfg_key(a['config'])}:{'ok' if 'ok' in o else 'deviates'}",
+         describe="spec-level: XmlParser with XmlEventHandler and LxmlEventHandler on the bytes of the injected documents vs the statement "
+                  "(injected == original / ParserError / value kept + one warning), caller's ParserConfig unchanged"),
 ]
 
 
@@ -521,7 +743,40 @@ def finding_dict_best():
     return still, f"lenient {{'b': {{'x': '1'}}}} -> {a}; unknown key at the top is ignored ({top == a}); nested {{'x': '1', 'zz': 2}} -> {b}"
 
 
+def finding_dict_best_strict():
+    import sys
+    import types
+    import warnings
+    from typing import Optional
+
+    from xsdata.formats.dataclass.parsers import DictDecoder
+    from xsdata.formats.dataclass.parsers.config import ParserConfig
+
+    Base = _mk("Base", [("n", Optional[int], {"type": "Element"})])
+    Sub = _mk("Sub", [("y", Optional[str], {"type": "Element"})], bases=(Base,))
+    Root = _mk("Root", [("b", Optional[Base], {"type": "Element"}), ("c", Optional[int], {"type": "Element"})])
+    mod = types.ModuleType("c10_finding_models2")
+    for c in (Base, Sub, Root):
+        c.__module__ = mod.__name__
+        setattr(mod, c.__name__, c)
+    sys.modules[mod.__name__] = mod
+    try:
+        d = DictDecoder(config=ParserConfig(fail_on_converter_warnings=False))
+        with warnings.catch_warnings(record=True) as w:
+            warnings.simplefilter("always")
+            top = d.decode({"c": "many"}, Root)
+            try:
+                b = d.decode({"b": {"n": "many"}}, Root)
+            except Exception as e:  # noqa: BLE001
+                b = f"{type(e).__name__}: {str(e)[:90]}"
+    finally:
+        sys.modules.pop(mod.__name__, None)
+    still = top.c == "many" and len(w) == 1 and isinstance(b, str) and b.startswith("ParserError")
+    return still, f"lenient {{'c': 'many'}} -> {top} with {len(w)} warning; nested {{'b': {{'n': 'many'}}}} -> {b}"
+
+
 FINDINGS = {
+    "C10-dict-best-strict-conversion": finding_dict_best_strict,
     "C10-wild-text-takes-unknown-attrs": finding_wild_text,
     "C10-dict-derived-keys": finding_dict_derived,
     "C10-dict-best-rejects-unknown": finding_dict_best,
